@@ -389,6 +389,13 @@ func RunStd(e *Engine, p Profile) {
 			since = 0
 			continue
 		}
+		if p.Prop == "C11" && (last == "remove" || last == "markremoved") {
+			e.Retag = "C11"
+			e.Check(true)
+			e.Retag = ""
+			since = 0
+			continue
+		}
 		mut := last != "write" && last != "read" && last != "" && last != "setcheckpoint" && last != "markremoved"
 		if mut || since >= 8 {
 			e.Check(r.Chance(p.DeepPct))
